@@ -83,7 +83,7 @@ def run(ctx):
     import quantecon.game_theory.game_generators.bimatrix_generators as bg
     thorough = ctx.tier == "thorough"
     rng = ctx.rng
-    ctx.proofs()
+    ctx.proofs(["C18/Props.v", "C18/PropsTie.v"])
     reps = 4 if thorough else 1
     jobs = []
 
